@@ -38,6 +38,8 @@ def prepare():
             shutil.rmtree(dst)
         shutil.copytree(KANI_DIR, dst, ignore=shutil.ignore_patterns("target", "Cargo.lock"))
         shutil.copyfile(os.path.join(REPO, "Cargo.lock"), os.path.join(dst, "Cargo.lock"))
+        ct = open(os.path.join(dst, "Cargo.toml")).read().replace('"/repo/', '"%s/' % REPO)
+        open(os.path.join(dst, "Cargo.toml"), "w").write(ct)
         gen = os.path.join(dst, "src", "gen.rs")
         write_generated(gen)
         with open(stamp, "w") as f:
